@@ -1,6 +1,7 @@
 package checks
 
 import (
+	"strings"
 	"encoding/json"
 	"fmt"
 	"os"
@@ -69,6 +70,15 @@ func TestCheck(t *testing.T) {
 	if f := os.Getenv("VERIF_REPLAY"); f != "" {
 		os.Exit(replay(t, id, tier, f))
 	}
+	if p := os.Getenv("VERIF_PATH"); p != "" {
+		// ad-hoc: VERIF_SCEN=<scenario id> VERIF_PATH='op;op;...' (debugging aid)
+		v := report.Viol{Property: id, Check: os.Getenv("VERIF_SCEN"), Trace: strings.Split(p, ";")}
+		b, _ := json.Marshal(v)
+		f := "/dev/shm/verif-adhoc.json"
+		os.WriteFile(f, b, 0o644)
+		defer os.Remove(f)
+		os.Exit(replay(t, id, tier, f))
+	}
 	if mk := histChecks[id]; mk != nil {
 		os.Exit(runHist(id, tier, mk(tier)))
 	}
@@ -96,6 +106,9 @@ func runHist(id, tier string, scens []*hist.Scenario) int {
 	ruleHits := map[string]int{}
 	foreign := map[string]int{}
 	for _, sc := range scens {
+		if s := os.Getenv("VERIF_DEPTH"); s != "" {
+			sc.Depth, _ = strconv.Atoi(s)
+		}
 		st, viol, err := hist.Explore(sc, exe, []string{"-test.run", "^TestCheck$", "-test.timeout", "0"}, nWorkers(), deadline, 50)
 		if err != nil {
 			fmt.Fprintf(os.Stderr, "check %s scenario %s: harness error: %v\n", id, sc.ID, err)
@@ -103,6 +116,11 @@ func runHist(id, tier string, scens []*hist.Scenario) int {
 		}
 		fmt.Printf("%s: depth=%d states=%d transitions=%d drains=%d levels=%v nonEmptyPulls=%d exhaustive=%v wall=%.1fs hits=%v foreign=%v\n",
 			sc.ID, st.MaxDepth, st.States, st.Transitions, st.DrainRuns, st.Levels, st.NonEmptyPulls, st.Exhaustive, st.Wall, st.RuleHits, st.Foreign)
+		if os.Getenv("VERIF_SHOW_FOREIGN") != "" {
+			for _, f := range st.ForeignEx {
+				fmt.Printf("  FOREIGN %s %v\n    path: %v\n", f.Hit.Rule, f.Hit.Text, f.Path)
+			}
+		}
 		states += st.States
 		trans += st.Transitions + st.DrainOps
 		drains += st.DrainRuns
@@ -186,6 +204,7 @@ func replay(t *testing.T, id, tier, file string) int {
 		if n := len(path); n > 0 && path[n-1] == "<drain>" {
 			path, drain = path[:n-1], true
 		}
+		hist.Verbose = os.Getenv("VERIF_VERBOSE") != ""
 		r, hits, err := wk.Replay(sc, path)
 		if err != nil {
 			fmt.Fprintln(os.Stderr, err)
